@@ -377,6 +377,9 @@ async fn exec_inner(world: Arc<World>, c: usize, spec: CallSpec) -> (String, Val
             }
         }
         CallSpec::CreateSub { name, topic, ack, push } => {
+            if ack > 0 && ack <= 100_000 {
+                world.max_ack_secs.fetch_max(ack as u64, std::sync::atomic::Ordering::SeqCst);
+            }
             world.ev(
                 "inv",
                 json!({"c": c, "op": "CreateSub", "name": name, "topic": topic, "ack": ack, "push": push.clone().unwrap_or_default(),
